@@ -45,6 +45,20 @@ type rwReadable struct {
 
 func (r *rwReadable) ReadableLen() int { return r.n }
 
+// flakyRW: an object with a readable length whose Read and Write return whatever the script says, including a
+// positive count together with an error (a partial write on a connection that broke).
+type flakyRW struct {
+	n    int
+	rn   int
+	rerr error
+	wn   int
+	werr error
+}
+
+func (f *flakyRW) ReadableLen() int            { return f.n }
+func (f *flakyRW) Read(p []byte) (int, error)  { return minInt(f.rn, len(p)), f.rerr }
+func (f *flakyRW) Write(p []byte) (int, error) { return minInt(f.wn, len(p)), f.werr }
+
 // fullTransport has every TTransport method plus ReadableLen; its own RemainingBytes answers a sentinel.
 type fullTransport struct {
 	bytes.Buffer
@@ -335,6 +349,38 @@ func checkBridge(c BridgeCase, cv *cov) (v *evid.Violation) {
 			}
 			if got := sharedTr.RemainingBytes(); got != wantShared {
 				v = evid.Failf("generic transport (one transport, readable length changing over time) with ReadableLen()=%d: RemainingBytes()=%d, want %d", n, got, wantShared)
+				return
+			}
+		}
+		// reads and writes through a generic transport that fail in every way (no bytes / some bytes / all bytes
+		// together with an error) are passed through as they are and do not change what the transport reports
+		fl := &flakyRW{}
+		flTr := apache.NewDefaultTransport(fl)
+		ioErr := errors.New("connection reset")
+		for k, n := range append(append([]int{}, c.Readable...), 9, 0, 3) {
+			fl.n = n
+			fl.rn, fl.rerr, fl.wn, fl.werr = k%4, nil, (k+1)%5, nil
+			switch k % 4 {
+			case 1:
+				fl.werr = ioErr
+			case 2:
+				fl.rerr = ioErr
+			case 3:
+				fl.werr, fl.rerr, fl.wn = ioErr, io.EOF, 8
+			}
+			buf8 := make([]byte, 8)
+			wn, werr := flTr.Write(buf8)
+			rn, rerr := flTr.Read(buf8)
+			if wn != minInt(fl.wn, 8) || werr != fl.werr || rn != minInt(fl.rn, 8) || rerr != fl.rerr {
+				v = evid.Failf("generic transport: Write/Read returned (%d,%v)/(%d,%v), the wrapped object returned (%d,%v)/(%d,%v)", wn, werr, rn, rerr, minInt(fl.wn, 8), fl.werr, minInt(fl.rn, 8), fl.rerr)
+				return
+			}
+			want := uint64(math.MaxUint64)
+			if n > 0 {
+				want = uint64(n)
+			}
+			if got := flTr.RemainingBytes(); got != want {
+				v = evid.Failf("generic transport over an object with ReadableLen()=%d, after a Write that returned (%d,%v) and a Read that returned (%d,%v): RemainingBytes()=%d, want %d", n, wn, werr, rn, rerr, got, want)
 				return
 			}
 		}
